@@ -19,7 +19,7 @@ Record cfg := mkcfg { dialT : N; writeT : N; readT : N; qcap : N; qmax : Z (* Ob
 (* rtimer.After(T): the wheel ticks every T/accuracy; the returned slot closes between T - T/accuracy and T *)
 Definition lo (T : N) : N := T - T / c_rtimer_accuracy.
 
-Inductive outcome := Reply (p : N) | Timeout | Error.
+Inductive outcome := Reply (p : N) | Timeout | Error | Sent (* one-way: the request was queued *).
 
 (* program counter of a caller inside TarsInvoke *)
 Inductive pc :=
@@ -34,7 +34,7 @@ Inductive pc :=
 | Returned.
 
 Record call := mkcall {
-  k_start : N; k_dl : N; k_pc : pc; k_t0 : N (* begin of the current wait *);
+  k_ow : bool (* one-way call *); k_start : N; k_dl : N; k_pc : pc; k_t0 : N (* begin of the current wait *);
   k_lockt : N (* ghost: when connLock was acquired *); k_d : bool (* ghost: this call dialled *);
   k_e : bool (* ghost: time passed while waiting to enqueue *);
   k_out : option outcome; k_ret : N }.
@@ -56,7 +56,7 @@ Definition id_of (i : nat) : N := N.of_nat (S i).
 Definition call_of (id : N) : option nat := if id =? 0 then None else Some (pred (N.to_nat id)).
 
 Inductive label :=
-| Tick | Start (d : N)
+| Tick | Start (d : N) (ow : bool)
 | LPre (i : nat) | LReg (i : nat) | LQueueFull (i : nat) | LLock (i : nat)
 | LDialOk (i : nat) | LDialFail (i : nat) | LDialTimeout (i : nat)
 | LEnq (i : nat) | LEnqTimeout (i : nat) | LCtxFire (i : nat) | LClean (i : nat) | LPost (i : nat)
@@ -74,19 +74,21 @@ Definition memb (i : nat) (l : list nat) : bool := existsb (Nat.eqb i) l.
 Definition remove_nat (i : nat) (l : list nat) : list nat := filter (fun j => negb (Nat.eqb i j)) l.
 
 Definition set_pc (k : call) (p : pc) : call :=
-  mkcall (k_start k) (k_dl k) p (k_t0 k) (k_lockt k) (k_d k) (k_e k) (k_out k) (k_ret k).
+  mkcall (k_ow k) (k_start k) (k_dl k) p (k_t0 k) (k_lockt k) (k_d k) (k_e k) (k_out k) (k_ret k).
 Definition set_wait (k : call) (p : pc) (t : N) : call :=
-  mkcall (k_start k) (k_dl k) p t (k_lockt k) (k_d k) (k_e k) (k_out k) (k_ret k).
+  mkcall (k_ow k) (k_start k) (k_dl k) p t (k_lockt k) (k_d k) (k_e k) (k_out k) (k_ret k).
 Definition set_lock (k : call) (p : pc) (t : N) (d : bool) : call :=
-  mkcall (k_start k) (k_dl k) p t t d (k_e k) (k_out k) (k_ret k).
+  mkcall (k_ow k) (k_start k) (k_dl k) p t t d (k_e k) (k_out k) (k_ret k).
 Definition set_out (k : call) (o : outcome) (e : bool) : call :=
-  mkcall (k_start k) (k_dl k) Done (k_t0 k) (k_lockt k) (k_d k) e (Some o) (k_ret k).
+  mkcall (k_ow k) (k_start k) (k_dl k) Done (k_t0 k) (k_lockt k) (k_d k) e (Some o) (k_ret k).
 Definition set_full (k : call) : call :=
-  mkcall (k_start k) (k_dl k) Cleaned (k_t0 k) (k_lockt k) (k_d k) (k_e k) (Some Error) (k_ret k).
+  mkcall (k_ow k) (k_start k) (k_dl k) Cleaned (k_t0 k) (k_lockt k) (k_d k) (k_e k) (Some Error) (k_ret k).
 Definition set_enq (k : call) (e : bool) : call :=
-  mkcall (k_start k) (k_dl k) Waiting (k_t0 k) (k_lockt k) (k_d k) e (k_out k) (k_ret k).
+  if k_ow k
+  then mkcall (k_ow k) (k_start k) (k_dl k) Done (k_t0 k) (k_lockt k) (k_d k) e (Some Sent) (k_ret k)   (* one-way: returns at once *)
+  else mkcall (k_ow k) (k_start k) (k_dl k) Waiting (k_t0 k) (k_lockt k) (k_d k) e (k_out k) (k_ret k).
 Definition set_ret (k : call) (t : N) : call :=
-  mkcall (k_start k) (k_dl k) Returned (k_t0 k) (k_lockt k) (k_d k) (k_e k) (k_out k) t.
+  mkcall (k_ow k) (k_start k) (k_dl k) Returned (k_t0 k) (k_lockt k) (k_d k) (k_e k) (k_out k) t.
 
 Definition with_calls (s : state) (cs : list call) : state :=
   mkst (now s) cs (rcvs s) (queueLen s) (invokeNum s) (resp s) (conn_open s) (lock s) (sendq s) (wire s) (sent s).
@@ -120,7 +122,7 @@ Definition step (c : cfg) (s : state) (l : label) : option state :=
   match l with
   | Tick => if urgent c s then None
             else Some (mkst (now s + 1) (calls s) (rcvs s) (queueLen s) (invokeNum s) (resp s) (conn_open s) (lock s) (sendq s) (wire s) (sent s))
-  | Start d => Some (with_calls s (calls s ++ [mkcall (now s) (now s + d) Init (now s) (now s) false false None 0]))
+  | Start d ow => Some (with_calls s (calls s ++ [mkcall ow (now s) (now s + d) Init (now s) (now s) false false None 0]))
   | LPre i =>
       match nth_error (calls s) i with
       | Some k => match k_pc k with
@@ -207,9 +209,9 @@ Definition step (c : cfg) (s : state) (l : label) : option state :=
       | None => None end
   | LSendTake =>
       match sendq s with
-      | i :: q => if conn_open s
-                  then Some (mkst (now s) (calls s) (rcvs s) (queueLen s) (invokeNum s) (resp s) (conn_open s) (lock s) q (i :: wire s) (sent s))
-                  else None
+      (* a sender goroutine takes the head of the queue and writes it; the goroutine of a lost connection may still be
+         running (the connection flag is not consulted), whether the bytes reach the peer is the peer's business *)
+      | i :: q => Some (mkst (now s) (calls s) (rcvs s) (queueLen s) (invokeNum s) (resp s) (conn_open s) (lock s) q (i :: wire s) (sent s))
       | [] => None end
   | LConnDown =>
       if conn_open s
@@ -266,6 +268,7 @@ Record act := mkact { a_junk : bool; a_reply : option N; a_dup : bool; a_down : 
 
 Record scen := mkscen {
   sc_cfg : cfg; sc_conn : connmode; sc_acts : list act; sc_callers : nat; sc_calls : nat; sc_eff : N; sc_gap : N;
+  sc_oneway : bool;
   sc_prime : bool (* concurrent callers only: one call alone first, the callers start when it has returned *) }.
 
 (* scheduler state: packets the peer will emit (time, id, payload), connection losses to deliver *)
@@ -333,7 +336,7 @@ Definition due (now : N) (p : N * N * N) : bool := let '(t, _, _) := p in t <=? 
 (* one scheduling decision: the label to take and the new scheduler state *)
 Definition sched (sc : scen) (s : state) (e : env) : label * env :=
   let c := sc_cfg sc in
-  if want_start sc s then (Start (sc_eff sc), e) else
+  if want_start sc s then (Start (sc_eff sc) (sc_oneway sc), e) else
   match e_down e with
   | S n => (if conn_open s then LConnDown else LPeerPkt 0 0, mkenv (e_pend e) n)
   | O =>
@@ -357,7 +360,8 @@ Definition sched (sc : scen) (s : state) (e : env) : label * env :=
   match sendq s with
   | i :: _ =>
       if conn_open s && can_take then
-        let a := nth_last (sc_acts sc) (length (wire s)) (mkact false None false false) in
+        let a := if sc_oneway sc then mkact false None false false   (* one-way requests are never answered *)
+                 else nth_last (sc_acts sc) (length (wire s)) (mkact false None false false) in
         let rep := match sc_conn sc, a_reply a with
                    | CNoRead, _ | CNoReadEarly _, _ | _, None => []
                    | _, Some d => (now s + d, id_of i, pay_of i) :: (if a_dup a then [(now s + d + 1, id_of i, pay_of i)] else [])
@@ -389,11 +393,11 @@ Fixpoint crun (fuel : nat) (sc : scen) (s : state) (e : env) (acc : list label) 
 Definition canonical (sc : scen) : state * list label * bool := crun (N.to_nat 60000) sc init (mkenv [] 0) [].
 
 (* ---------- observations and the correspondence check ---------- *)
-Inductive ocls := OReply | OTimeout | OError | OOther.
+Inductive ocls := OReply | OTimeout | OError | OSent | OOther.
 Definition ocls_eqb (a b : ocls) : bool :=
-  match a, b with OReply, OReply | OTimeout, OTimeout | OError, OError | OOther, OOther => true | _, _ => false end.
+  match a, b with OReply, OReply | OTimeout, OTimeout | OError, OError | OSent, OSent | OOther, OOther => true | _, _ => false end.
 Definition cls_of (o : option outcome) : ocls :=
-  match o with Some (Reply _) => OReply | Some Timeout => OTimeout | Some Error => OError | None => OOther end.
+  match o with Some (Reply _) => OReply | Some Timeout => OTimeout | Some Error => OError | Some Sent => OSent | None => OOther end.
 
 Fixpoint insert_sorted (x : N) (l : list N) : list N :=
   match l with [] => [x] | y :: t => if x <=? y then x :: l else y :: insert_sorted x t end.
@@ -422,7 +426,7 @@ Definition predicted (sc : scen) (obs : list (ocls * N)) : bool :=
   let m := model_calls s in
   ok && (queueLen s =? 0)%Z && (invokeNum s =? 0)%Z && match resp s with [] => true | _ => false end &&
   if Nat.ltb 1 (sc_callers sc)
-  then forallb (fun cl => times_agree (sort_n (of_cls cl m)) (sort_n (of_cls cl obs))) [OReply; OTimeout; OError; OOther]
+  then forallb (fun cl => times_agree (sort_n (of_cls cl m)) (sort_n (of_cls cl obs))) [OReply; OTimeout; OError; OSent; OOther]
   else list_eqb ocls_eqb (map fst m) (map fst obs) && times_agree (map snd m) (map snd obs).
 
 (* ---------- trace validation: the implementation's event trace against the specification machine ---------- *)
@@ -475,6 +479,7 @@ Definition astep (a : astate) (e : event) : option astate :=
                      | OReply => existsb (fun x => let '(i, py, live) := x in (i =? aid k) && (py =? pay) && live) (sends a)
                      | OTimeout => true
                      | OError => negb (memN (aid k) (recvd a))
+                     | OSent => true
                      | OOther => false
                      end in
           if okc && oko
@@ -505,10 +510,10 @@ Definition accepts (es : list event) : bool :=
 (* ---------- a correspondence case ---------- *)
 Record c09case := mkcase {
   cc_cfg : cfg; cc_conn : connmode; cc_acts : list act; cc_callers : nat; cc_calls : nat; cc_eff : N; cc_gap : N;
-  cc_prime : bool; cc_predict : bool; cc_obs : list (ocls * N); cc_events : list event; cc_final : N * N * N }.
+  cc_oneway : bool; cc_prime : bool; cc_predict : bool; cc_obs : list (ocls * N); cc_events : list event; cc_final : N * N * N }.
 
 Definition c09_check (x : c09case) : bool :=
-  let sc := mkscen (cc_cfg x) (cc_conn x) (cc_acts x) (cc_callers x) (cc_calls x) (cc_eff x) (cc_gap x) (cc_prime x) in
+  let sc := mkscen (cc_cfg x) (cc_conn x) (cc_acts x) (cc_callers x) (cc_calls x) (cc_eff x) (cc_gap x) (cc_oneway x) (cc_prime x) in
   (if cc_predict x then predicted sc (cc_obs x) else true)
   && accepts (cc_events x)
   && (let '(q, n, p) := cc_final x in (q =? 0) && (n =? 0) && (p =? 0)).
